@@ -521,6 +521,10 @@ def bi_float(ctx, args, kw):
     if not args:
         return 0.0
     v = args[0]
+    lits = ctx.ghost.get("symbolic_literals")
+    if lits and isinstance(v, str) and v.strip() in lits:
+        # harness facility: an atom spelled as one of the declared names denotes an arbitrary real number
+        return lits[v.strip()]
     if isinstance(v, Sym):
         if v.k in ("int", "bool", "real"):
             return mk(term(v, "real"), "real")
